@@ -554,6 +554,12 @@ def normalise(modname: str, tree: ast.AST, mutable_attrs: set[str] | None = None
                     ast.increment_lineno(rc, fn.lineno - r.lineno)
                     body[i] = rc
                     entry["<equivalent to reference>"] = "path summaries equal; rules evaluated on the reference form"
+                else:
+                    from .equiv import partial_normalise
+
+                    k = partial_normalise(fn, r)
+                    if k:
+                        entry["<equivalent segments>"] = f"{k} differing segment(s) with equal summaries viewed in reference form; the rest as written"
         except RecursionError:
             continue
         if entry:
